@@ -85,7 +85,7 @@ Record state := {
   Ts : list Qc;                  (* SingleSetup: [T] *)
   ref : list (list nat);         (* ref_ind (unused by SingleSetup) *)
   init : list term; init_fs : Qc; init_ref : list (list nat);   (* _initial_data / _initial_datasets, _initial_fs, _initial_ref_ind *)
-  bound : list (list view * Qc)  (* log of (data, fs) handed to algorithms by add_algorithms, oldest first *)
+  bound : list (nat * (list view * Qc))  (* log of (algorithm, (data, fs)) handed over by add_algorithms, oldest first *)
 }.
 
 Inductive op :=
@@ -93,7 +93,7 @@ Inductive op :=
 | Detrend (kw:kwargs)
 | Filter (w:wn) (ord:nat) (bt:string)
 | Rollback
-| AddAlg.
+| AddAlg (nm:nat).   (* add_algorithms(alg): nm identifies the algorithm INSTANCE (a fresh one, or one added before) *)
 
 (* __init__ / _initialize_data *)
 Definition init_state (sg:bool) (fs0:Qc) (refs:list (list nat)) (ds:list term) : presult state :=
@@ -145,10 +145,14 @@ Definition step (pc sg:bool) (s:state) (o:op) : presult state :=
       | POk s' => POk {| cur := cur s'; data := data s'; fs := fs s'; dt := dt s'; Ndats := Ndats s'; Ts := Ts s'; ref := ref s';
                          init := init s'; init_fs := init_fs s'; init_ref := init_ref s'; bound := bound s |}
       end
-  | AddAlg =>
+  | AddAlg nm =>   (* alg._set_data(data=self.data, fs=self.fs), whether or not this instance was added before *)
       POk {| cur := cur s; data := data s; fs := fs s; dt := dt s; Ndats := Ndats s; Ts := Ts s; ref := ref s;
-             init := init s; init_fs := init_fs s; init_ref := init_ref s; bound := (bound s ++ [(data s, fs s)])%list |}
+             init := init s; init_fs := init_fs s; init_ref := init_ref s; bound := (bound s ++ [(nm, (data s, fs s))])%list |}
   end.
+
+(* what the algorithm instance nm holds: its most recent binding *)
+Definition alg_lookup (nm:nat) (log:list (nat * (list view * Qc))) : option (list view * Qc) :=
+  match find (fun e => Nat.eqb (fst e) nm) (rev log) with Some e => Some (snd e) | None => None end.
 
 Definition run (pc sg:bool) (s0:state) (ops:list op) : presult state :=
   fold_left (fun r o => bindp r (fun s => step pc sg s o)) ops (POk s0).
@@ -164,7 +168,7 @@ Definition app1 (c:list term * Qc) (o:op) : list term * Qc :=
   | Detrend kw => (map (Det kw) (fst c), snd c)
   | Filter w ord bt => (map (Filt (snd c) w ord bt) (fst c), snd c)
   | Rollback => c
-  | AddAlg => c
+  | AddAlg _ => c
   end.
 Definition apply_ops (ops:list op) (c:list term * Qc) : list term * Qc := fold_left app1 ops c.
 (* product of the decimation factors *)
@@ -240,8 +244,9 @@ Definition showV (c:option term) (v:view) : string :=
   end.
 Fixpoint showVs (c:list term) (vs:list view) : list string :=
   match vs with [] => [] | v :: vr => showV (hd_error c) v :: showVs (tl c) vr end.
-Definition showBound (c:list term) (b:list view * Qc) : string := showQc (snd b) ++ "@" ++ join ";" (showVs c (fst b)).
-(* fs|dt|Ndats|Ts|cur|data|number of bindings|last binding *)
+Definition showBound (c:list term) (b:nat * (list view * Qc)) : string :=
+  showN (fst b) ++ ":" ++ showQc (snd (snd b)) ++ "@" ++ join ";" (showVs c (fst (snd b))).
+(* fs|dt|Ndats|Ts|cur|data|number of bindings|last binding (algorithm:fs@data) *)
 Definition showS (s:state) : string :=
   showQc (fs s) ++ "|" ++ showQc (dt s) ++ "|" ++ showL showN " " (Ndats s) ++ "|" ++ showL showQc " " (Ts s) ++ "|"
   ++ showCur (cur s) ++ "|" ++ join ";" (showVs (cur s) (data s)) ++ "|" ++ showN (List.length (bound s)) ++ "|"
